@@ -521,6 +521,7 @@ func (s *State) atLoopHead(l *Loop) bool {
 		}
 	}
 	// havoc
+	pathBefore := s.Path
 	c.analyseLoop(l)
 	s.havocLoop(l)
 	fr.Entered[l.Head] = true
@@ -533,7 +534,7 @@ func (s *State) atLoopHead(l *Loop) bool {
 			fr.LoopVariant[l.Head] = s.name("variant", "Int", evalDec(ls.Decreases))
 		}
 		// the invariants (together with the havoc frame) must not be contradictory
-		c.Obls = append(c.Obls, &Obligation{Name: fmt.Sprintf("%s/vac-loop#L%d", c.Key, l.Ordinal), Kind: "vac", Func: c.Key, Desc: "loop invariants satisfiable", Pos: pos, Path: s.Path, Goal: "false", ExpectSat: true, PathID: s.PathID})
+		c.Obls = append(c.Obls, &Obligation{Name: fmt.Sprintf("%s/vac-loop#L%d", c.Key, l.Ordinal), Kind: "vac", Func: c.Key, Desc: "loop invariants satisfiable", Pos: pos, Path: s.Path, Before: pathBefore, Goal: "false", ExpectSat: true, PathID: s.PathID})
 	}
 	return false
 }
@@ -686,6 +687,9 @@ func (s *State) invariantRef(w ssa.Value, l *Loop, comp string) (Term, bool) {
 	if w == nil {
 		return "", false
 	}
+	if w == freshMarker {
+		return "", true
+	}
 	refOf := func(v Value, t types.Type) (Term, bool) {
 		switch x := v.(type) {
 		case *Loc:
@@ -819,6 +823,9 @@ func calleeBaseToArg(w ssa.Value, fn *ssa.Function, cc *ssa.CallCommon) ssa.Valu
 	if w == nil {
 		return nil
 	}
+	if w == freshMarker {
+		return w
+	}
 	argOf := func(p *ssa.Parameter) ssa.Value {
 		for i, q := range fn.Params {
 			if q == p {
@@ -855,13 +862,14 @@ func calleeBaseToArg(w ssa.Value, fn *ssa.Function, cc *ssa.CallCommon) ssa.Valu
 			}
 		}
 	case *ssa.Alloc, *ssa.MakeSlice, *ssa.MakeMap:
-		// storage allocated inside the callee: fresh per call. Returning the value itself makes
-		// invariantRef treat it as "defined in the loop" only if its block is in the loop body; it is not,
-		// so give up precision here.
-		return nil
+		// storage allocated inside the callee: fresh on every call
+		return freshMarker
 	}
 	return nil
 }
+
+// freshMarker stands for "storage allocated during the loop iteration" in Loop.Writers.
+var freshMarker ssa.Value = &ssa.Alloc{}
 
 // specWriteRefs evaluates a callee's modifies entry at the loop-entry state, with the callee's parameters bound to
 // the (loop-invariant) argument values. ok=false if an argument is not loop-invariant or the entry cannot be
